@@ -580,19 +580,22 @@ Proof.
            |apply negb_true_iff, memE_false; rewrite flip_spec; cbn; intro Hq; apply Hn; auto]).
 Qed.
 
-(* _eq_covariate is an inclusion test *)
+(* _eq_covariate decides equality of the two effect sets *)
 Lemma eq_covariate_spec a b :
   forallb cov_ok a = true -> forallb cov_ok b = true ->
-  eq_covariate a b = Ok (subsetb effect_eqb (E_cov a) (E_cov b)).
+  eq_covariate a b = Ok (seteqb effect_eqb (E_cov a) (E_cov b)).
 Proof.
   intros Ha Hb. unfold eq_covariate.
   destruct (extract_covariates_spec a Ha) as [la [Ea Hla]]. destruct (extract_covariates_spec b Hb) as [lb [Eb Hlb]].
-  rewrite Ea, Eb. cbn [bind]. f_equal. unfold subsetb.
-  apply eq_true_iff_eq. rewrite !forallb_forall. split; intros H x Hx.
-  - apply Hla in Hx. specialize (H x Hx). apply memE_In in H. apply Hlb in H. unfold memb. apply existsb_exists.
-    exists x. split; [exact H|apply effect_eqb_spec; reflexivity].
-  - apply Hla in Hx. specialize (H x Hx). unfold memb in H. apply existsb_exists in H. destruct H as [y [Hy E]].
-    apply effect_eqb_spec in E. subst y. apply memE_In. apply Hlb. exact Hy.
+  rewrite Ea, Eb. cbn [bind]. f_equal. unfold seteqb, subsetb.
+  assert (Hhalf : forall l1 l2 e1 e2, (forall x, In x l1 <-> In x e1) -> (forall x, In x l2 <-> In x e2) ->
+                    forallb (fun x => memE x l2) l1 = forallb (fun x => memb effect_eqb x e2) e1).
+  { intros l1 l2 e1 e2 H1 H2. apply eq_true_iff_eq. rewrite !forallb_forall. split; intros H x Hx.
+    - apply H1 in Hx. specialize (H x Hx). apply memE_In in H. apply H2 in H. unfold memb. apply existsb_exists.
+      exists x. split; [exact H|apply effect_eqb_spec; reflexivity].
+    - apply H1 in Hx. specialize (H x Hx). unfold memb in H. apply existsb_exists in H. destruct H as [y [Hy E]].
+      apply effect_eqb_spec in E. subst y. apply memE_In. apply H2. exact Hy. }
+  rewrite (Hhalf la lb _ _ Hla Hlb), (Hhalf lb la _ _ Hlb Hla). reflexivity.
 Qed.
 
 (* ---------------------------------------------------------------- generic boolean set tests *)
@@ -765,15 +768,6 @@ Proof.
   - rewrite orb_false_r in Hg. apply negb_true_iff in Hg. symmetry. exact Hg.
 Qed.
 
-(* ---------------------------------------------------------------- _eq_covariate under the symmetry guard *)
-Lemma eq_covariate_guarded (a b : mf) :
-  forallb cov_ok (covariate a) = true -> forallb cov_ok (covariate b) = true -> g_cov_symmetric a b = true ->
-  eq_covariate (covariate a) (covariate b) = Ok (seteqb effect_eqb (E_cov (covariate a)) (E_cov (covariate b))).
-Proof.
-  intros Ha Hb Hg. rewrite (eq_covariate_spec _ _ Ha Hb). f_equal. unfold g_cov_symmetric in Hg.
-  apply Bool.eqb_prop in Hg. unfold seteqb. rewrite <- Hg. destruct (subsetb effect_eqb _ _); reflexivity.
-Qed.
-
 (* ---------------------------------------------------------------- validate_mfl_list and LET references *)
 Lemma validate_printed l : forall mand,
   g_let_not_forced l = true -> validate_from mand (printed l) = validate_from mand l.
@@ -834,10 +828,10 @@ Definition wf_eq_space (m : mf) : bool :=
 
 Lemma mf_eq_is_set_equality a b :
   wf_eq_space a = true -> wf_eq_space b = true ->
-  g_cov_symmetric a b = true -> g_tuples_canonical a b = true -> g_same_metabolite a b = true ->
+  g_tuples_canonical a b = true -> g_same_metabolite a b = true ->
   mf_eq a b = Ok (spaces_equal a b).
 Proof.
-  unfold wf_eq_space. intros Ha Hb Hcov Hcan Hmet.
+  unfold wf_eq_space. intros Ha Hb Hcan Hmet.
   repeat (apply andb_true_iff in Ha; destruct Ha as [Ha ?]). repeat (apply andb_true_iff in Hb; destruct Hb as [Hb ?]).
   unfold mf_eq.
   rewrite (opt_eq_plain cat_absorption (absorption a) (absorption b)) by assumption. cbn [bind cd_wild cat_absorption].
@@ -846,7 +840,7 @@ Proof.
   rewrite (opt_eq_eval cat_direct_effect (direct_effect a) (direct_effect b)) by (try reflexivity; try discriminate; assumption).
   rewrite (opt_eq_eval cat_effect_comp (effect_comp a) (effect_comp b)) by (try reflexivity; try discriminate; assumption).
   rewrite (periph_tuple_eq_canonical a b) by assumption.
-  rewrite (eq_covariate_guarded a b) by assumption.
+  rewrite (eq_covariate_spec (covariate a) (covariate b)) by assumption.
   assert (Htr : eq_transits (transits a) (transits b) = seteqb pair_eqb (Epk_transits a) (Epk_transits b)).
   { apply eq_true_iff_eq. rewrite (eq_transits_spec (transits a) (transits b)) by assumption.
     rewrite (seteqb_spec pair_eqb pair_eqb_spec). reflexivity. }
@@ -874,11 +868,29 @@ Proof.
 Qed.
 
 (* ---------------------------------------------------------------- Transits.__eq__ *)
-Lemma transits_stmt_eq_guarded a b r :
-  transits_stmt_eq a b = Some r ->
-  seteqb pair_eqb (E_stmt [] w_depot a) (E_stmt [] w_depot b) = true ->
-  pair_truth r = seteqb pair_eqb (E_stmt [] w_depot a) (E_stmt [] w_depot b).
-Proof. intros _ H. rewrite H. reflexivity. Qed.
+(* for two statements with explicit, non-empty count and depot lists `==` is equality of the expansions *)
+Lemma transits_stmt_eq_spec c1 d1 c2 d2 :
+  c1 <> [] -> d1 <> [] -> c2 <> [] -> d2 <> [] ->
+  transits_stmt_eq (mkP (MList c1) (MList d1)) (mkP (MList c2) (MList d2)) =
+  Some (seteqb pair_eqb (E_stmt [] w_depot (mkP (MList c1) (MList d1))) (E_stmt [] w_depot (mkP (MList c2) (MList d2)))).
+Proof.
+  intros Hc1 Hd1 Hc2 Hd2. unfold transits_stmt_eq. cbn [p_vals p_keys]. f_equal. apply eq_true_iff_eq.
+  rewrite andb_true_iff, !seteqN_spec, (seteqb_spec pair_eqb pair_eqb_spec).
+  assert (HE : forall c d v k, In (v, k) (E_stmt [] w_depot (mkP (MList c) (MList d))) <-> In v c /\ In k d).
+  { intros c d v k. rewrite In_E_stmt. cbn. split.
+    - intros [vs [ks [E1 [E2 H]]]]. injection E1 as <-. injection E2 as <-. exact H.
+    - intro H. exists c, d. auto. }
+  split.
+  - intros [Hc Hd] [v k]. rewrite !HE, Hc, Hd. reflexivity.
+  - intro H. destruct (nonempty_has _ Hc1) as [v1 Hv1]. destruct (nonempty_has _ Hd1) as [k1 Hk1].
+    destruct (nonempty_has _ Hc2) as [v2 Hv2]. destruct (nonempty_has _ Hd2) as [k2 Hk2]. split.
+    + intro v. split; intro Hv.
+      * assert (In (v, k1) (E_stmt [] w_depot (mkP (MList c1) (MList d1)))) by (apply HE; auto). apply H in H0. apply HE in H0. tauto.
+      * assert (In (v, k2) (E_stmt [] w_depot (mkP (MList c2) (MList d2)))) by (apply HE; auto). apply H in H0. apply HE in H0. tauto.
+    + intro k. split; intro Hk.
+      * assert (In (v1, k) (E_stmt [] w_depot (mkP (MList c1) (MList d1)))) by (apply HE; auto). apply H in H0. apply HE in H0. tauto.
+      * assert (In (v2, k) (E_stmt [] w_depot (mkP (MList c2) (MList d2)))) by (apply HE; auto). apply H in H0. apply HE in H0. tauto.
+Qed.
 
 (* ---------------------------------------------------------------- least_number_of_transformations *)
 (* one mode category: nothing when the model's mode is in the space, otherwise one transformation to a mode of the space *)
@@ -920,33 +932,25 @@ Proof.
     + right. apply IH. discriminate.
 Qed.
 
-(* peripherals: without metabolite compartments in the space only a DRUG step can be returned, to a count of the space,
-   and none when the model's count is already there *)
+(* peripherals: only a step of the drug's compartments to a count of the space can be returned, none when the
+   model's count is already there -- whatever metabolite compartments the space offers *)
 Lemma lnt_peripherals_spec a b :
   forallb periph_plain a = true -> forallb periph_plain b = true ->
-  (forall c, ~ In (c, s_MET) (Eper b)) ->
   exists items, lnt_peripherals a b = Ok items /\
     ((exists c, In (c, s_DRUG) (Eper a) /\ In (c, s_DRUG) (Eper b)) -> items = []) /\
     (forall i, In i items -> exists n, i = LKey [AS s_PERIPHERALS; AI (Z.of_N n)] /\ In (n, s_DRUG) (Eper b)).
 Proof.
-  intros Ha Hb Hmet. unfold lnt_peripherals.
+  intros Ha Hb. unfold lnt_peripherals.
   destruct (extract_peripherals_spec a [] [] Ha) as [ma [da [Ea [Hma Hda]]]].
   destruct (extract_peripherals_spec b [] [] Hb) as [mb [db [Eb [Hmb Hdb]]]].
-  rewrite Ea, Eb. cbn [bind fst snd].
-  assert (Hmb0 : mb = []).
-  { destruct mb as [|x mb']; [reflexivity|]. exfalso. apply (Hmet x). assert (In x (x :: mb')) by (left; reflexivity).
-    apply Hmb in H. destruct H as [[]|H]. exact H. }
-  subst mb. eexists. split; [reflexivity|]. cbn [existsb]. split.
+  rewrite Ea, Eb. cbn [bind fst snd]. eexists. split; [reflexivity|]. split.
   - intros [c [H1 H2]].
     assert (Hex : existsb (fun c0 => memN c0 db) da = true).
     { apply existsb_exists. exists c. split; [apply Hda; right; exact H1|apply memN_In, Hdb; right; exact H2]. }
-    rewrite Hex. destruct (existsb (fun c0 => memN c0 []) ma); reflexivity.
-  - intros i Hi.
-    destruct (existsb (fun c0 => memN c0 db) da); [destruct (existsb (fun c0 => memN c0 []) ma); destruct Hi|].
-    destruct db as [|x db']; [destruct (existsb (fun c0 => memN c0 []) ma); destruct Hi|].
-    assert (Hi' : i = LKey [AS s_PERIPHERALS; AI (Z.of_N (minN (x :: db') x))]).
-    { destruct (existsb (fun c0 => memN c0 []) ma); cbn in Hi; destruct Hi as [<-|[]]; reflexivity. }
-    exists (minN (x :: db') x). split; [exact Hi'|].
+    rewrite Hex. reflexivity.
+  - intros i Hi. destruct (existsb (fun c0 => memN c0 db) da); [destruct Hi|].
+    destruct db as [|x db']; [destruct Hi|]. destruct Hi as [<-|[]].
+    exists (minN (x :: db') x). split; [reflexivity|].
     assert (Hin : In (minN (x :: db') x) (x :: db')) by (apply minN_In; discriminate).
     apply Hdb in Hin. destruct Hin as [[]|Hin]. exact Hin.
 Qed.
